@@ -65,6 +65,8 @@ type Plan struct {
 	// OrphanOK: operations may build on orphan-linked layers (fork children of a
 	// flattened layer); otherwise they are only read.
 	OrphanOK bool `json:"orphan_ok,omitempty"`
+	// Legacy: C22's second world, the legacy core/state/snapshot tree (legacy.go).
+	Legacy bool `json:"legacy,omitempty"`
 	// TinyTrie: one-account states are allowed although trienode histories are indexed (C18).
 	TinyTrie bool `json:"tiny_trie,omitempty"`
 	// crash enumeration (C20)
